@@ -901,3 +901,82 @@ def oracle_fresh_gate(w):
     if exp is None or M.shape != exp.shape or np.abs(M - exp).max() > 1e-9:
         return True, "%s: after mutating another object of the class, a new object does not have the documented matrix" % key
     return False, "independent objects"
+
+
+# ------------------------------------------------------------------------------------------------------------------
+# qubits given in other containers than the documented int / list (tuple, numpy array, numpy integers, range)
+
+def _container(kind, qs):
+    if kind == "tuple":
+        return tuple(qs)
+    if kind == "array":
+        return np.array(qs)
+    if kind == "npint":
+        return [np.int64(q) for q in qs] if len(qs) != 1 else np.int64(qs[0])
+    if kind == "range":
+        return range(qs[0], qs[-1] + 1) if list(range(qs[0], qs[-1] + 1)) == list(qs) else \
+            range(qs[0], qs[-1] - 1, -1) if list(range(qs[0], qs[-1] - 1, -1)) == list(qs) else tuple(qs)
+    return list(qs)
+
+
+def seq_requests(kinds=("tuple", "array", "npint", "range")):
+    from qutip_qip.operations import gateclass
+    from props.c09 import SHAPES
+    keys = [(k, ["class", "circuit"]) for k in gateclass.GATE_CLASS_MAP]
+    keys += [("ControlledGate:X", ["class"]), ("ControlledGate:RY", ["class"])]
+    keys += [("Gate:" + n, ["class"]) for n in ("CNOT", "CRX", "TOFFOLI", "FREDKIN", "X", "SWAP")]
+    for key, paths in keys:
+        name = doc_name(key)
+        if key.startswith("ControlledGate:"):
+            tn = key.split(":", 1)[1]
+            cs, ts, cvs, arg = [2, 1], [0], [2, 1], doc_arg_shape(tn)
+        elif name in CONTROLLED:
+            m = CONTROLLED[name][0]
+            nt = 2 if name == "FREDKIN" else 1
+            cs, ts, cvs, arg = list(range(nt + m - 1, nt - 1, -1)), list(range(nt)), [ABSENT], doc_arg_shape(name)
+        else:
+            nt = SHAPES[name][1]
+            cs, ts, cvs, arg = None, list(range(nt - 1, -1, -1)) if nt > 1 else [1], [ABSENT], doc_arg_shape(name)
+        for kind in kinds:
+            for path in paths:
+                for cv in cvs:
+                    yield {"kind": "seq", "key": key, "path": path, "container": kind, "controls": cs, "targets": ts, "cv": cv,
+                           "arg": arg, "N": 4}
+
+
+def oracle_seq(w):
+    """a request whose qubits come in another sequence type is refused by the constructor, or served like the same request
+    with lists: documented compact matrix AND listed-order operator on the register"""
+    from props.c09 import DOC
+    kind = w["container"]
+    req = {"key": w["key"], "path": w["path"], "arg": w["arg"], "cv": w["cv"],
+           "targets": _container(kind, w["targets"]), "controls": ABSENT if w["controls"] is None else _container(kind, w["controls"])}
+    lreq = dict(req, targets=list(w["targets"]), controls=ABSENT if w["controls"] is None else list(w["controls"]))
+    label = "%s(controls=%r, targets=%r%s) via %s" % (w["key"], req["controls"], req["targets"],
+                                                     "" if w["cv"] == ABSENT else ", control_value=%s" % w["cv"], w["path"])
+    try:
+        g = build(req)
+    except Exception as e:
+        return False, "refused: " + type(e).__name__
+    try:
+        M = g.get_compact_qobj().full()
+        F = g.get_qobj(dims=[2] * w["N"]).full()
+    except Exception as e:
+        return True, "%s is accepted (stores targets=%r controls=%r) but cannot be evaluated: %s: %s" % (
+            label, g.targets, g.controls, type(e).__name__, str(e)[:80])
+    exp, what = expected_matrix(lreq, g)
+    if exp is None or M.shape != exp.shape or np.abs(M - exp).max() > 1e-9:
+        return True, "%s is accepted (stores controls=%r) but get_compact_qobj() is not the documented matrix of %s" % (label, g.controls, what)
+    name = doc_name(w["key"])
+    if w["key"].startswith("ControlledGate:") or name in CONTROLLED:
+        if w["key"].startswith("ControlledGate:"):
+            tn, m, v = w["key"].split(":", 1)[1], len(w["controls"]), w["cv"]
+        else:
+            m, tn = CONTROLLED[name]
+            v = 2 ** m - 1
+        full = listed_order_semantics(w["N"], list(w["controls"]), list(w["targets"]), v, doc_matrix(tn, w["arg"]))
+    else:
+        full = listed_order_semantics(w["N"], [], list(w["targets"]), 0, doc_matrix(name, w["arg"]))
+    if F.shape != full.shape or np.abs(F - full).max() > 1e-9:
+        return True, "%s: get_qobj on %d qubits is not the operator of the same request with lists" % (label, w["N"])
+    return False, "served like the list form"
